@@ -35,6 +35,7 @@ type vfNackScript struct {
 		S     uint32 `json:"s"`
 		W     uint16 `json:"w"`
 		Nack  bool   `json:"nack"`
+		RFail bool   `json:"rfail"` // recv: the wrapped reader fails - the error is passed up and nothing is recorded (no event)
 		Stale bool   `json:"stale"` // recv: through the reader of the stream's PREVIOUS binding (after its Unbind)
 		WFail bool   `json:"wfail"` // tick: the RTCP writer refuses every write of this tick (after it has seen the packet)
 		Fb    string `json:"fb"`    // RTCP feedback list of the stream: "" (nack only, if Nack), "plifirst", "nackfirst", "plionly", "other"
@@ -176,7 +177,7 @@ func vfRunIcpt(t *testing.T, sc *vfNackScript, out *vfWriter) {
 
 	var mu sync.Mutex
 	var written []vfM
-	var failNow atomic.Bool
+	var failNow, failRead atomic.Bool
 	ic.BindRTCPWriter(interceptor.RTCPWriterFunc(func(pkts []rtcp.Packet, _ interceptor.Attributes) (res int, rerr error) {
 		mu.Lock()
 		defer mu.Unlock()
@@ -256,6 +257,10 @@ func vfRunIcpt(t *testing.T, sc *vfNackScript, out *vfWriter) {
 			}
 			b.reader = ic.BindRemoteStream(b.info, interceptor.RTPReaderFunc(
 				func(buf []byte, a interceptor.Attributes) (int, interceptor.Attributes, error) {
+					if failRead.Load() {
+						return copy(buf, b.next), a, errVfNackInjected // (the bytes are there all the same)
+					}
+
 					return copy(buf, b.next), a, nil
 				}))
 			streams[st.S] = b
@@ -293,6 +298,16 @@ func vfRunIcpt(t *testing.T, sc *vfNackScript, out *vfWriter) {
 			raw, _ := pkt.Marshal()
 			b.next = raw
 			buf := make([]byte, 1500)
+			if st.RFail {
+				failRead.Store(true)
+				_, _, err := b.reader.Read(buf, interceptor.Attributes{})
+				failRead.Store(false)
+				if !errors.Is(err, errVfNackInjected) {
+					t.Fatalf("VERIF-INFRA the failure of the wrapped reader was not passed up: %v", err)
+				}
+
+				continue
+			}
 			if n, _, err := b.reader.Read(buf, interceptor.Attributes{}); err != nil || n != len(raw) {
 				t.Fatalf("VERIF-INFRA read: n=%d err=%v", n, err)
 			}
